@@ -1,70 +1,82 @@
 /-
   C02 — obligations about the REGENERATED facts (Generated/C02.lean is rewritten from the Go source on every run).
-  A source change that alters the EIP-712 type table, a name, a version constant, the pallet's verifying contract, the
-  per-proposal map, the 0x19 0x01 framing, what is hashed / signed / submitted, or a statement of the signature assembly
-  makes one of these fail to check.
+
+  Every fact is an `Option`. `none` = the extractor could not locate the anchor in a shape it understands (a helper was
+  extracted, statements restructured): the obligation is vacuous, bin/check prints `T-TIE-UNAVAILABLE`, and the
+  correspondence ops (hash / evmhash / subhash / evmsig / subsig / watchsig / execwatch / execsign / bseq) carry the clause
+  alone. A fact that IS located must satisfy its obligation. The facts are DATA extracted by shape (literal values with
+  constants resolved, keys of composite literals, identifiers related to EACH OTHER) — never the text of an expression
+  compared with an expected spelling, so renaming locals / receivers / unexported helpers or introducing named constants
+  does not disturb them.
 -/
 import SygmaModel.Model.C02
 import SygmaModel.Generated.C02
 namespace Sygma.C02
-open Sygma.Generated
 
-/-- the source's type table is the model's -/
-theorem gen_types :
-    C02.types = typesTable.map (fun (n, fs) => (n, fs.map fun f => (f.name, f.type))) := by decide
+/-- the source's type table is the model's, and go-ethereum's `EncodeType` on it yields the contract's type strings -/
+theorem gen_types : ∀ t, Generated.C02.types = some t →
+    t = typesTable.map (fun (n, fs) => (n, fs.map fun f => (f.name, f.type))) ∧
+    (let tbl : Types := t.map (fun (n, fs) => (n, fs.map fun (a, b) => ⟨a, b⟩))
+     encodeType tbl "EIP712Domain" = Spec.typeDomain ∧ encodeType tbl "Proposal" = Spec.typeProposal ∧
+     encodeType tbl "Proposals" = Spec.typeProposals) := by
+  intro t ht
+  unfold Generated.C02.types at ht
+  cases ht
+  all_goals decide
 
-/-- … and therefore encodes to exactly the contract's type strings (go-ethereum's `EncodeType` on the regenerated table) -/
-theorem gen_type_strings :
-    let tbl : Types := C02.types.map (fun (n, fs) => (n, fs.map fun (a, b) => ⟨a, b⟩))
-    encodeType tbl "EIP712Domain" = Spec.typeDomain ∧ encodeType tbl "Proposal" = Spec.typeProposal ∧
-    encodeType tbl C02.primaryType = Spec.typeProposals := by decide
+theorem gen_primary : ∀ s, Generated.C02.primaryType = some s → s = primaryType := by
+  intro s hs; unfold Generated.C02.primaryType at hs; cases hs; all_goals decide
 
-theorem gen_names : C02.primaryType = primaryType ∧ C02.domainName = Spec.name := by decide
+theorem gen_domain_name : ∀ s, Generated.C02.domainName = some s → s = Spec.name := by
+  intro s hs; unfold Generated.C02.domainName at hs; cases hs; all_goals decide
 
 /-- both entry points sign for the contract's version -/
-theorem gen_versions : C02.evmBridgeVersion = Spec.version ∧ C02.palletBridgeVersion = Spec.version ∧
-    C02.evmBridgeVersion = evmBridgeVersion ∧ C02.palletBridgeVersion = palletBridgeVersion := by decide
+theorem gen_evm_version : ∀ s, Generated.C02.evmVersion = some s → s = Spec.version ∧ s = evmBridgeVersion := by
+  intro s hs; unfold Generated.C02.evmVersion at hs; cases hs; all_goals decide
 
-/-- the pallet's verifying contract is the model's 20 bytes -/
-theorem gen_pallet_contract : fromHexChars C02.palletVerifyingContract.toList = some palletContract := by decide
+theorem gen_pallet_version : ∀ s, Generated.C02.palletVersion = some s → s = Spec.version ∧ s = palletBridgeVersion := by
+  intro s hs; unfold Generated.C02.palletVersion at hs; cases hs; all_goals decide
 
-/-- the domain is filled from the chain id, the version and the contract handed in; the entry points hand in the client's
-    chain id through `Int64()`, their address / the constant, and their version constant -/
-theorem gen_domain_sources :
-    C02.domainSources = ["math.NewHexOrDecimal256(chainID)", "bridgeVersion", "verifContract"] ∧
-    C02.evmHashCall = "proposals | chainID.Int64() | c.ContractAddress().Hex() | bridgeVersion" ∧
-    C02.palletHashCall = "proposals | p.ChainID.Int64() | verifyingContract | bridgeVersion" := by decide
+/-- the pallet's verifying contract is the model's 20 bytes (hex, either case) -/
+theorem gen_pallet_contract : ∀ s, Generated.C02.palletContract = some s → fromHexChars s.toList = some palletContract := by
+  intro s hs; unfold Generated.C02.palletContract at hs; cases hs; all_goals decide
 
-/-- each proposal contributes exactly its origin domain, deposit nonce, resource id and data, under the table's field names -/
-theorem gen_proposal_map :
-    C02.proposalMap = [("originDomainID", "big.NewInt(int64(prop.Source))"),
-      ("depositNonce", "new(big.Int).SetUint64(prop.Data.DepositNonce)"),
-      ("resourceID", "hexutil.Encode(prop.Data.ResourceId[:])"), ("data", "prop.Data.Data")] ∧
-    C02.proposalMap.map (·.1) = (propMap ⟨0, 0, [], []⟩).map (·.1) ∧
-    C02.message = "proposals=formattedProps" := by decide
+/-- each proposal contributes exactly the fields of the table's `Proposal` type, under its field names (any order: the
+    map is consumed by key, `map_order_irrelevant`), and the message has the one key of the primary type's field -/
+theorem gen_proposal_keys : ∀ ks, Generated.C02.proposalKeys = some ks →
+    (ks.length == 4 && ((propMap ⟨0, 0, [], []⟩).map (·.1)).all (ks.contains ·)) = true := by
+  intro ks hs; unfold Generated.C02.proposalKeys at hs; cases hs; all_goals decide
+
+theorem gen_message_key : ∀ s, Generated.C02.messageKey = some s → s = "proposals" := by
+  intro s hs; unfold Generated.C02.messageKey at hs; cases hs; all_goals decide
 
 /-- 0x19 0x01 ‖ domain separator ‖ struct hash -/
-theorem gen_framing : C02.framing = "\"\\x19\\x01%s%s\"|string(domainSeparator)|string(typedDataHash)" := by decide
+theorem gen_framing : ∀ s, Generated.C02.framing = some s → s = "\x19\x01%s%s" := by
+  intro s hs; unfold Generated.C02.framing at hs; cases hs; all_goals decide
 
-/-- EVM: the value handed to threshold signing is `ProposalsHash` of the batch's own proposals (whatever the variables are
-    called: the hash result flows into `msg.SetBytes`, `msg` is NewSigning's message), and the batch submitted with the
-    signature is that same batch -/
-theorem gen_evm_flow :
-    ∃ hashVar batch, C02.evmFlow = [hashVar ++ "|" ++ batch ++ ".proposals", hashVar, "msg", batch] ∧ hashVar ≠ "" ∧ batch ≠ "" :=
-  ⟨C02.evmFlow.getD 1 "", C02.evmFlow.getD 3 "", by decide, by decide, by decide⟩
+/-- what the data-flow facts must satisfy, whatever the variables are called: the hash result is what `SetBytes` receives,
+    the number it is set on is NewSigning's message, and what was hashed is (the proposals of) what the watcher is handed -/
+def flowOk (suffix : String) : List String → Bool
+  | [hashVar, hashed, sbArg, sbRecv, signArg, watched] =>
+    hashVar == sbArg && sbRecv == signArg && hashed == watched ++ suffix && hashVar != "" && sbRecv != "" && watched != ""
+  | _ => false
 
-/-- Substrate: the same list is hashed, signed for and submitted -/
-theorem gen_substrate_flow :
-    ∃ hashVar list, C02.substrateFlow = [hashVar ++ "|" ++ list, hashVar, "msg", list] ∧ hashVar ≠ "" ∧ list ≠ "" :=
-  ⟨C02.substrateFlow.getD 1 "", C02.substrateFlow.getD 3 "", by decide, by decide, by decide⟩
+/-- EVM `Execute`: `ProposalsHash(b.proposals)` → `SetBytes` → `NewSigning`, and the watcher (which submits) gets `b` -/
+theorem gen_evm_flow : ∀ fl, Generated.C02.evmFlow = some fl → flowOk ".proposals" fl = true := by
+  intro fl hf; unfold Generated.C02.evmFlow at hf; cases hf; all_goals decide
 
-/-- the signature assembly statements are the ones `sigBytes` models, in this order, in both executors -/
-theorem gen_sig_assembly :
-    C02.evmSig = ["sig := []byte{}", "sig = append(sig[:], ethCommon.LeftPadBytes(signatureData.R, 32)...)",
-      "sig = append(sig[:], ethCommon.LeftPadBytes(signatureData.S, 32)...)",
-      "sig = append(sig[:], signatureData.SignatureRecovery...)", "sig[len(sig)-1] += 27", "submit(batch.proposals, sig)"] ∧
-    C02.substrateSig = ["sig := []byte{}", "sig = append(sig[:], ethCommon.LeftPadBytes(signatureData.R, 32)...)",
-      "sig = append(sig[:], ethCommon.LeftPadBytes(signatureData.S, 32)...)",
-      "sig = append(sig[:], signatureData.SignatureRecovery...)", "sig[len(sig)-1] += 27", "submit(proposals, sig)"] := by decide
+/-- Substrate `Execute`: the same list is hashed, signed for and handed to the watcher -/
+theorem gen_substrate_flow : ∀ fl, Generated.C02.substrateFlow = some fl → flowOk "" fl = true := by
+  intro fl hf; unfold Generated.C02.substrateFlow at hf; cases hf; all_goals decide
+
+/-- the signature assembly is the one `sigBytes` models: R and S left-padded to 32, the recovery bytes, 27 added to the
+    last byte, and that buffer is what is submitted -/
+def expectedSig : List (String × Nat) := [("R", 32), ("S", 32), ("SignatureRecovery", 0), ("last+", 27), ("submit", 0)]
+
+theorem gen_evm_sig : ∀ ps, Generated.C02.evmSig = some ps → ps = expectedSig := by
+  intro ps hs; unfold Generated.C02.evmSig at hs; cases hs; all_goals decide
+
+theorem gen_substrate_sig : ∀ ps, Generated.C02.substrateSig = some ps → ps = expectedSig := by
+  intro ps hs; unfold Generated.C02.substrateSig at hs; cases hs; all_goals decide
 
 end Sygma.C02
